@@ -150,6 +150,57 @@ theorem shapeRun_blind (cfg : SplitCfg) : ∀ (ts ts' : List Tok) (sh : Shape), 
       · exact ih ts' _ hrest
       · rfl
 
+/-- everything the splitter can see of a token: its type, what `_change_splitlevel` makes of it, whether it is `;`, whether the GO rule fires
+(or `value.split()[0]` raises) -/
+def tokView (cfg : SplitCfg) (t : Tok) : TType × SKind × Bool × Option Bool :=
+  (t.tt, kindOf cfg t.tt t.val, t.val == txt ";",
+   if t.tt == T.Keyword then (splitFirst cfg.isSpace t.val).map (fun w => cfg.upper w == txt "GO") else some false)
+
+/-- `shapeStep` written as a function of the view alone -/
+def shapeStepV (cfg : SplitCfg) (sh : Shape) (v : TType × SKind × Bool × Option Bool) : Except PyErr Shape :=
+  let sh0 : Shape := if sh.consumeWs && !(cfg.eos.contains v.1) then ⟨{}, false, 0, 0, true, sh.doneLens ++ [sh.curLen]⟩ else sh
+  let r := kindStep sh0.flags v.2.1
+  let sh1 : Shape := ⟨r.snd, sh0.consumeWs, sh0.level + r.fst, sh0.curLen + 1, sh0.curAllWs && v.1.isIn T.Whitespace, sh0.doneLens⟩
+  if sh1.level ≤ 0 && v.1 == T.Punctuation && v.2.2.1 then .ok { sh1 with consumeWs := true }
+  else if v.1 == T.Keyword then
+    match v.2.2.2 with
+    | none => .error .indexError
+    | some b => .ok (if b then { sh1 with consumeWs := true } else sh1)
+  else .ok sh1
+
+theorem shapeStep_eq_V (cfg : SplitCfg) (sh : Shape) (t : Tok) : shapeStep cfg sh t = shapeStepV cfg sh (tokView cfg t) := by
+  unfold shapeStep shapeYield shapeAdvance shapeStepV tokView changeSplitLevel Tok.isWhitespace
+  simp only
+  by_cases hkw : (t.tt == T.Keyword) = true
+  · simp only [hkw, if_true]
+    cases h1 : splitFirst cfg.isSpace t.val <;> simp [Option.map]
+  · have : (t.tt == T.Keyword) = false := by simpa using hkw
+    simp [this]
+
+theorem shapeStep_view (cfg : SplitCfg) (sh : Shape) (t t' : Tok) (h : tokView cfg t = tokView cfg t') :
+    shapeStep cfg sh t = shapeStep cfg sh t' := by
+  rw [shapeStep_eq_V, shapeStep_eq_V, h]
+
+theorem shapeRun_view (cfg : SplitCfg) : ∀ (ts ts' : List Tok) (sh : Shape), ts.map (tokView cfg) = ts'.map (tokView cfg) →
+    shapeRun cfg sh ts = shapeRun cfg sh ts' := by
+  intro ts
+  induction ts with
+  | nil =>
+    intro ts' sh hv
+    cases ts' with
+    | nil => rfl
+    | cons _ _ => simp at hv
+  | cons t ts ih =>
+    intro ts' sh hv
+    cases ts' with
+    | nil => simp at hv
+    | cons t' ts' =>
+      simp only [List.map_cons, List.cons.injEq] at hv
+      simp only [shapeRun, shapeStep_view cfg sh t t' hv.1]
+      split
+      · exact ih ts' _ hv.2
+      · rfl
+
 /-- the observable partition: the token count of each statement -/
 def partitionLens (r : Except PyErr (List (List Tok))) : Except PyErr (List Nat) := r.map (·.map List.length)
 
@@ -183,5 +234,12 @@ keyword type or Punctuation, are split into statements of the same extents -/
 theorem split_value_irrelevant (cfg : SplitCfg) (ts ts' : List Tok) (h : SameSplitView ts ts') :
     partitionLens (splitProcess cfg ts) = partitionLens (splitProcess cfg ts') := by
   rw [splitProcess_shape, splitProcess_shape, shapeRun_blind cfg ts ts' _ h]
+
+/-- **the splitter sees a token only through its view**: two streams with the same sequence of views (same types; keywords with the same
+`_change_splitlevel` classification — in particular any re-casing or re-spacing with the same `' '.join(v.upper().split())`; the same `;` and GO
+tests) have identical statement extents -/
+theorem split_view_invariant (cfg : SplitCfg) (ts ts' : List Tok) (h : ts.map (tokView cfg) = ts'.map (tokView cfg)) :
+    partitionLens (splitProcess cfg ts) = partitionLens (splitProcess cfg ts') := by
+  rw [splitProcess_shape, splitProcess_shape, shapeRun_view cfg ts ts' _ h]
 
 end Sql
